@@ -21,6 +21,7 @@ import (
 	"io"
 	"os"
 	"path/filepath"
+	"sort"
 	"strconv"
 	"strings"
 
@@ -288,6 +289,7 @@ type c10Inst struct {
 	tplEng  *document.TemplateEngine
 	tplData *document.TemplateData
 	again   int
+	cfgs    map[string]*document.ImageConfig
 }
 
 func (i *c10Inst) Enabled(op int) bool {
@@ -316,6 +318,21 @@ func (i *c10Inst) againOK() bool {
 }
 
 func (i *c10Inst) Nontrivial() bool { return i.lastNT }
+
+// cfg hands out ONE configuration object per (size, placement) for the whole history: a caller may keep a
+// configuration and pass it for several pictures; each picture's extent still follows the rules for its own pixels.
+func (i *c10Inst) cfg(s c10Size, float bool) *document.ImageConfig {
+	k := fmt.Sprintf("%+v/%v", s, float)
+	if c, ok := i.cfgs[k]; ok {
+		return c
+	}
+	if i.cfgs == nil {
+		i.cfgs = map[string]*document.ImageConfig{}
+	}
+	c := c10ImageConfig(s, float)
+	i.cfgs[k] = c
+	return c
+}
 
 func c10ImageConfig(s c10Size, float bool) *document.ImageConfig {
 	if s.Mode == "nil" && !float {
@@ -404,11 +421,11 @@ func (i *c10Inst) Apply(op int) (string, []rep.Violation) {
 			im := c10Imgs[o.img]
 			if o.via == "file" {
 				err = c10WithFile(o.fname, c10Payload(op), func(path string) error {
-					_, e := i.doc.AddImageFromFile(path, c10ImageConfig(o.size, o.float))
+					_, e := i.doc.AddImageFromFile(path, i.cfg(o.size, o.float))
 					return e
 				})
 			} else {
-				_, err = i.doc.AddImageFromData(c10Payload(op), o.fname, c10Format(o.img), im.w, im.h, c10ImageConfig(o.size, o.float))
+				_, err = i.doc.AddImageFromData(c10Payload(op), o.fname, c10Format(o.img), im.w, im.h, i.cfg(o.size, o.float))
 			}
 			added = err == nil
 		case "cell":
@@ -453,15 +470,15 @@ func (i *c10Inst) Apply(op int) (string, []rep.Violation) {
 			data := document.NewTemplateData()
 			if o.via == "file" {
 				err = c10WithFile(o.fname, c10Payload(op), func(path string) error {
-					data.SetImage("pic", path, c10ImageConfig(o.size, false))
+					data.SetImage("pic", path, i.cfg(o.size, false))
 					return i.render(data)
 				})
 				i.tplEng, i.tplData = nil, nil // the file is gone after the call
 			} else if o.via == "details" {
-				data.SetImageWithDetails("pic", "", c10Payload(op), c10ImageConfig(o.size, false), "alt text of pic", "title of pic")
+				data.SetImageWithDetails("pic", "", c10Payload(op), i.cfg(o.size, false), "alt text of pic", "title of pic")
 				err = i.render(data)
 			} else {
-				data.SetImageFromData("pic", c10Payload(op), c10ImageConfig(o.size, false))
+				data.SetImageFromData("pic", c10Payload(op), i.cfg(o.size, false))
 				err = i.render(data)
 			}
 			added = err == nil
@@ -635,6 +652,20 @@ func (i *c10Inst) Key() string {
 		fmt.Fprintf(&b, "%s/%s/%d/%s/%s/%v;", p.Place, p.Via, p.Op, c10Hash(p.Payload), p.lived(), p.OffAtAdd)
 	}
 	fmt.Fprintf(&b, "|r%d h%d l%d last=%v first=%v again=%v/%d|", i.reop, i.hdr, i.list, i.lastKind == "reopen", i.steps == 0, i.againOK(), i.again)
+	// the caller's configuration objects as they are now (a library that writes into them changes later calls)
+	ck := make([]string, 0, len(i.cfgs))
+	for k, c := range i.cfgs {
+		d := "nil"
+		if c != nil {
+			d = fmt.Sprintf("%v/%v/%v/%v", c.Position, c.Alignment, c.WrapText, c.AltText)
+			if c.Size != nil {
+				d += fmt.Sprintf("/%+v", *c.Size)
+			}
+		}
+		ck = append(ck, k+"="+d)
+	}
+	sort.Strings(ck)
+	b.WriteString(strings.Join(ck, ";") + "|")
 	b.WriteString(i.doc.VerifRelDump() + "|" + i.doc.VerifMediaDump() + "|" + strings.Join(i.doc.VerifPartNames(), ",") + "|" + c10DrawingDump(i.doc) + "|" + document.VerifGlobalsDump() + "|" + i.doc.VerifShallowState())
 	return rep.Hash(b.String())
 }
